@@ -59,6 +59,7 @@ type State struct {
 	guards []string
 	alloc  Term
 	tags   []string
+	snaps  map[string]*State // named snapshots (immutable), see contract clause `snapshot`
 	dead   bool // path condition is syntactically false
 	epoch  int // bumped by havoc-all: memories first touched afterwards are unrelated to their entry values
 }
@@ -70,6 +71,12 @@ func (s *State) clone() *State {
 	}
 	for k, v := range s.mem {
 		n.mem[k] = v
+	}
+	if s.snaps != nil {
+		n.snaps = make(map[string]*State, len(s.snaps))
+		for k, v := range s.snaps {
+			n.snaps[k] = v
+		}
 	}
 	n.pc = append([]string(nil), s.pc...)
 	n.guards = append([]string(nil), s.guards...)
@@ -121,6 +128,7 @@ type Exec struct {
 	obls    []*Obligation
 	results []types.Object
 	loopOrd map[ast.Stmt]int
+	stmtOrd map[ast.Node]int
 	paths   int
 	maxPath int
 	errs    []string
@@ -261,6 +269,27 @@ func (x *Exec) freshOf(st *State, hint string, t types.Type) Term {
 }
 
 // typeInv is the invariant every well-typed value satisfies (ranges of sized ints, slice headers, allocated refs).
+// entryState returns the state whose allocation bound applies to a value read from memory term m:
+// values stored in the entry-state memories (M0!...) were allocated before the function started.
+func (x *Exec) allocStateFor(st *State, memTerm string) *State {
+	if strings.HasPrefix(memTerm, "M0!") && x.old != nil {
+		return x.old
+	}
+	return st
+}
+
+// allocStateForRef: like allocStateFor for a value loaded through reference ref; objects allocated after entry
+// (ref >= alloc0) may hold younger references even when the heap term is still the entry one (a callee with an
+// empty assigns clause initialises the objects it allocates).
+func (x *Exec) allocStateForRef(st *State, memTerm string, ref Term) *State {
+	if strings.HasPrefix(memTerm, "M0!") && x.old != nil {
+		n := *st
+		n.alloc = Term{S: app("ite", app("<", ref.S, x.old.alloc.S), x.old.alloc.S, st.alloc.S), Sort: "Int"}
+		return &n
+	}
+	return st
+}
+
 func (x *Exec) typeInv(st *State, v Term) string {
 	if v.T == nil {
 		return "true"
@@ -428,9 +457,45 @@ func (x *Exec) viewOf(st *State, s Term, elemT types.Type) (Term, bool) {
 		return Term{S: v, Sort: "(Array Int " + es + ")"}, true
 	}
 	v := x.ctx.fresh("view", "(Array Int "+es+")")
-	x.ctx.views[key] = v
+	x.regView(m.S, s.S, v)
 	x.bridge(v, m, s)
 	return Term{S: v, Sort: "(Array Int " + es + ")"}, true
+}
+
+func (x *Exec) regView(mem, slice, v string) {
+	key := mem + "|" + slice
+	if _, ok := x.ctx.views[key]; ok {
+		return
+	}
+	x.ctx.views[key] = v
+	x.ctx.viewsByMem[mem] = append(x.ctx.viewsByMem[mem], slice)
+}
+
+// transferViews relates the views under memory `from` to memory `to` after an update that leaves the backing
+// arrays satisfying cond(slice) untouched: view(to, s) = view(from, s) whenever cond(s) holds. cond returns
+// "true" for an unconditional transfer and "" to skip a slice.
+func (x *Exec) transferViews(from, to Term, es string, cond func(slice string) string) {
+	if from.S == to.S {
+		return
+	}
+	for _, sl := range append([]string(nil), x.ctx.viewsByMem[from.S]...) {
+		if _, ok := x.ctx.views[to.S+"|"+sl]; ok {
+			continue
+		}
+		c := cond(sl)
+		if c == "" || c == "false" {
+			continue
+		}
+		old := x.ctx.views[from.S+"|"+sl]
+		if c == "true" {
+			x.regView(to.S, sl, old)
+			continue
+		}
+		nv := x.ctx.fresh("view", "(Array Int "+es+")")
+		x.ctx.decl("(assert " + imp(c, app("=", nv, old)) + ")")
+		x.regView(to.S, sl, nv)
+		x.bridge(nv, to, Term{S: sl, Sort: "Slice"})
+	}
 }
 
 func (x *Exec) bridge(v string, m Term, s Term) {
@@ -444,7 +509,7 @@ func (x *Exec) setView(m Term, s Term, v Term) {
 	if _, ok := x.ctx.views[key]; ok {
 		return
 	}
-	x.ctx.views[key] = c.S
+	x.regView(m.S, s.S, c.S)
 	x.bridge(c.S, m, s)
 }
 
@@ -469,6 +534,8 @@ func (x *Exec) storeElem(st *State, s Term, i Term, elemT types.Type, v Term) {
 	nm := x.define(st, "e_"+sortID(es), Term{S: app("store", m.S, arr, inner), Sort: m.Sort})
 	st.mem[key] = nm
 	x.setView(nm, s, Term{S: app("store", old.S, i.S, v.S), Sort: old.Sort})
+	// slices over other backing arrays are unaffected
+	x.transferViews(m, nm, es, func(sl string) string { return not(app("=", app("s-arr", sl), arr)) })
 }
 
 func (x *Exec) globalKey(v *types.Var) string {
